@@ -47,6 +47,7 @@ macro_rules! dispatch {
             "C04" => $f(&props::c04::C04, $($arg),*),
             "C05" => $f(&props::c05::C05, $($arg),*),
             "C06" => $f(&props::c06::C06, $($arg),*),
+            "C07" => $f(&props::c07::C07, $($arg),*),
             "C08" => $f(&props::c08::C08, $($arg),*),
             "C09" => $f(&props::c09::C09, $($arg),*),
             "C10" => $f(&props::c10::C10, $($arg),*),
@@ -90,6 +91,21 @@ fn main() {
                     EXIT_HARNESS
                 }
             }
+        }
+        Some("tables") => {
+            // triage aid: regional maximum payload tables of /repo vs the reference (not a check)
+            for region in script::ALL_REGIONS {
+                let cfg = script::WorldCfg::simple(region, script::Frontend::Async);
+                let rc = dut::region_config(&cfg);
+                for dr in 0..15u8 {
+                    let repo = rc.get_max_payload_length(lorawan_device::region::DR::from(dr), false, false);
+                    let reference = refregion::dr_def(region, dr).map(|d| d.max_mac).unwrap_or(0);
+                    if repo != reference {
+                        println!("{region:?} DR{dr}: repo M={repo} reference M={reference}");
+                    }
+                }
+            }
+            0
         }
         Some("selftest") => match self_test_refs() {
             Ok(()) => {
